@@ -240,7 +240,7 @@ public:
          * \param option The option to be added.
          */
         void add_tag(tag &&option) {
-            tags_size_ += static_cast<uint16_t>(option.data_size() + sizeof(uint16_t) * 2);
+            tags_size_ += static_cast<uint32_t>(option.data_size() + sizeof(uint16_t) * 2);
             tags_.push_back(std::move(option));
         }
     #endif
@@ -428,7 +428,7 @@ private:
 
     pppoe_header header_;
     tags_type tags_;
-    uint16_t tags_size_;
+    uint32_t tags_size_;
 };
 }
 
